@@ -431,17 +431,32 @@ theorem core2_j1 {s s' : St} {d : Nat} (hC : Core2 s) (hA : A s) (hd : d < s.nco
     · have := hnone e he; rcases hhe with h | h <;> simp [swA, h] at this
   · intro e he hhe; exact hcur
 
-/-- closing the previous connection (`existingConn.disconnect()`) while `d` is in j1b / sw3 -/
+/-- closing the previous connection (`existingConn.disconnect()`) while `d` is in j1b / sw3: afterwards no
+    connection is in play -/
 theorem core2_closeJold {s : St} {d : Nat} (hC : Core2 s) (hA : A s) (hd : d < s.nconns)
-    (hh : (s.conns d).h = .j1b ∨ (s.conns d).h = .sw3) : Core2 (closeOpt s (s.conns d).jold) := by
+    (hh : (s.conns d).h = .j1b ∨ (s.conns d).h = .sw3) :
+    Core2 (closeOpt s (s.conns d).jold) ∧
+    ∀ c, c < s.nconns → ((closeOpt s (s.conns d).jold).conns c).phase ≠ .play := by
   have honly := only_d hC hA hd (by rcases hh with h | h <;> simp [swA, h])
   have hcurn := hC.b5 d hd (by rcases hh with h | h <;> simp [h])
+  have hjtd := hC.jt d hd
+  -- the only connection that can be in play is the one `d` is about to close
+  have hplay : ∀ c, c < s.nconns → (s.conns c).phase = .play → (s.conns d).jold = some c := by
+    intro c hc hp
+    rcases hC.b4 c hc hp with h | h | ⟨e, he, hje, hhe⟩
+    · rw [hcurn] at h; simp at h
+    · have := honly c hc (by simp [swA, h]); subst this; rcases hh with h2 | h2 <;> simp_all
+    · have := honly e he (by rcases hhe with h | h <;> simp [swA, h])
+      subst this; exact hje
   cases hj : (s.conns d).jold with
-  | none => simpa [closeOpt] using hC
+  | none =>
+    refine ⟨by simpa [closeOpt] using hC, ?_⟩
+    intro c hc hp
+    simp only [closeOpt] at hp
+    have := hplay c hc hp; rw [hj] at this; simp at this
   | some o =>
     simp only [closeOpt]
     obtain ⟨ho, hpo⟩ := hC.jo d hd (by rcases hh with h | h <;> simp [h]) o hj
-    have hjtd := hC.jt d hd
     have hod : o ≠ d := by
       intro h; subst h
       rcases hh with h | h <;> simp_all
@@ -449,19 +464,14 @@ theorem core2_closeJold {s : St} {d : Nat} (hC : Core2 s) (hA : A s) (hd : d < s
       cases hs : swA (s.conns o).h with
       | false => rfl
       | true => exact absurd (honly o ho hs) hod
-    -- no other connection than `o` is in play
-    have hplay : ∀ c, c < s.nconns → (s.conns c).phase = .play → c = o := by
+    have hplayo : ∀ c, c < s.nconns → (s.conns c).phase = .play → c = o := by
       intro c hc hp
-      rcases hC.b4 c hc hp with h | h | ⟨e, he, hje, hhe⟩
-      · rw [hcurn] at h; simp at h
-      · have := honly c hc (by simp [swA, h]); subst this; rcases hh with h2 | h2 <;> simp_all
-      · have := honly e he (by rcases hhe with h | h <;> simp [swA, h])
-        subst this; rw [hj] at hje; injection hje with hje; exact hje.symm
+      have := hplay c hc hp; rw [hj] at this; injection this with this; exact this.symm
     have hclosed : ∀ c, c < s.nconns → ((closeConn s o).conns c).phase ≠ .play := by
       intro c hc hp
       rcases closeConn_conns_cases s o c with ⟨hw, h⟩ | ⟨_, _, h⟩ | ⟨_, _, h⟩
       · rw [h] at hp
-        have := hplay c hc hp
+        have := hplayo c hc hp
         rcases hw with hw | hw | hw <;> simp_all
       · rw [h] at hp; simp at hp
       · rw [h] at hp; simp at hp
@@ -470,9 +480,9 @@ theorem core2_closeJold {s : St} {d : Nat} (hC : Core2 s) (hA : A s) (hd : d < s
       have hsv' : sv ∈ s.players ∧ ((s.conns o).phase = .play → sv ≠ (s.conns o).server) := by
         cases hpo2 : (s.conns o).phase <;> simp_all [closeConn]
       obtain ⟨c, hc, hp, hs⟩ := (hC.b2 sv).mp hsv'.1
-      have := hplay c hc hp; subst this
+      have := hplayo c hc hp; subst this
       exact hsv'.2 hp hs.symm
-    refine ⟨?_, ?_, ?_, ?_, ?_, ?_, ?_, ?_⟩
+    refine ⟨⟨?_, ?_, ?_, ?_, ?_, ?_, ?_, ?_⟩, hclosed⟩
     · intro e he; simp only [closeConn_nconns] at he
       rcases closeConn_conns_cases s o e with ⟨_, h⟩ | ⟨_, heo, h⟩ | ⟨_, heo, h⟩
       · rw [h]; exact hC.jt e he
@@ -502,7 +512,6 @@ theorem core2_closeJold {s : St} {d : Nat} (hC : Core2 s) (hA : A s) (hd : d < s
     · intro c hc; simp only [closeConn_current] at hc; rw [hcurn] at hc; simp at hc
     · intro c hc hp; simp only [closeConn_nconns] at hc; exact absurd hp (hclosed c hc)
     · intro e he hhe; simp only [closeConn_current]; exact hcurn
-
 
 theorem A_closeOpt {s : St} (hA : A s) (o : Option Nat) : A (closeOpt s o) := by
   intro c hc ha
@@ -722,28 +731,151 @@ theorem stepBack_core2 {cfg : Cfg} {s s' : St} {c0 : Nat} (hI : Inv1 s) (hC : Co
       -- the switch-over sections
       | exact core2_sw2 hC hA hd hh rfl (fun e => rfl) rfl rfl
       | exact core2_j4 hC hA hd hh rfl (fun e => rfl) rfl rfl
-      | exact core2_j3 hC hA hd hh rfl
-          (fun e => by
-            have := (hjt0.1 (Or.inr hh)).1
-            simp only [upd_apply]; split <;> simp_all) rfl rfl
+      | exact core2_j3 hC hA hd hh rfl (fun e => rfl) rfl rfl
+      | (exfalso
+         have := (hjt0.1 (Or.inr hh)).1
+         simp_all; done)
       | (rename_i o hco
          exact core2_sw1 hC hA hd hh hco rfl (fun e => rfl) rfl rfl)
-      | (have h1 := core2_closeJold hC hA hd (Or.inl hh)
-         have hnp : ∀ c, c < (closeOpt s (s.conns c0).jold).nconns →
-             ((closeOpt s (s.conns c0).jold).conns c).phase ≠ .play := by
-           intro c hc hp
-           have hcn := h1.b5 c0 (by simpa using hd) (by simp [hh])
-           rcases h1.b4 c hc hp with h | h | ⟨e, he, hje, hhe⟩
-           · rw [hcn] at h; simp at h
-           · have := core2_sw_unique h1 (A_closeOpt hA _) c c0 hc (by simpa using hd) (by simp [swA, h]) (by simp [swA, hh])
-             subst this; simp [hh] at h
-           · have := core2_sw_unique h1 (A_closeOpt hA _) e c0 he (by simpa using hd)
-               (by rcases hhe with h | h <;> simp [swA, h]) (by simp [swA, hh])
-             subst this
-             simp only [closeOpt_jold] at hje
-             obtain ⟨_, hpo⟩ := h1.jo e he (by simp [hh]) c (by simpa using hje)
-             sorry
-         sorry)
-      | skip
+      | -- j1b → j3
+        (obtain ⟨h1, h2⟩ := core2_closeJold hC hA hd (Or.inl hh)
+         exact core2_after_close (hNew := .j3) h1 (A_closeOpt hA _) (by simpa using hd)
+           (Or.inl ⟨by simpa using hh, rfl⟩) (by simpa using h2) rfl
+           (fun e => by rw [setH_conns]) rfl rfl)
+      | -- sw3 → idle
+        (obtain ⟨h1, h2⟩ := core2_closeJold hC hA hd (Or.inr hh)
+         exact core2_after_close (hNew := .idle) h1 (A_closeOpt hA _) (by simpa using hd)
+           (Or.inr ⟨by simpa using hh, rfl⟩) (by simpa using h2) rfl
+           (fun e => by rw [setH_conns]) rfl rfl)
+      | -- leaving through the kick path is excluded
+        (exfalso
+         have := hNK' s.ntasks (by simp)
+         simp [spawnTask_tasks, isKickPc] at this; done)
+      | -- JoinGame, section 1
+        (have hrd : (s.conns c0).result = none := by
+           unfold jpOK at hJ0; simp_all
+         have hpd : (s.conns c0).phase = .transition := by assumption
+         refine core2_j1 hC hA hd hh hpd hrd rfl ?_ ?_ rfl
+         · intro e; simp only [upd_apply]; split <;> simp_all
+         · first | rfl | assumption)
+      | -- a record update outside the switch-over structure
+        (apply core2_benign hC
+         refine ⟨rfl, rfl, Nat.le_refl _, ?_, fun c h1 h2 => by simp at h2; omega⟩
+         intro c hc
+         simp only [upd_apply]
+         split
+         · rename_i hcc; subst hcc
+           unfold BenignConn; unfold jpOK at hJ0
+           simp_all [swH]
+         · exact benignConn_refl _)
+      | (have hnp : (s.conns c0).phase ≠ .play := by
+           unfold jpOK at hJ0
+           first
+             | (simp_all; done)
+             | (rcases hJ0.2.2.2.1 hh with h | h | h <;> simp [h])
+         have hsw : swA (s.conns c0).h = false := by simp [swA, hh]
+         first
+           | exact core2_benign hC (closeConn_benignStep s c0 hnp hsw)
+           | exact core2_benign hC (benignStep_trans (closeConn_benignStep s c0 hnp hsw)
+               (benignStep_setH _ c0 _ (by simp [swH, hh]) (by decide) (by decide)) (by simp)))
+      | exact core2_benign hC (benignStep_setH s c0 .idle (by simp [swH, hh]) (by decide) (by decide))
+      | exact core2_benign hC (benignStep_of_eq
+          (benignStep_setH s c0 .idle (by simp [swH, hh]) (by decide) (by decide)) rfl rfl rfl rfl)
+
+
+/-- the player never comes back -/
+theorem step_active {cfg : Cfg} {s s' : St} {a : Act} (h : step cfg s a = some s') (hact' : s'.active = true) :
+    s.active = true := by
+  have hq : ∀ t : St, (quitPlayer t).active = true → False := by
+    intro t ht; rw [quitPlayer_active] at ht; simp at ht
+  cases a with
+  | task i =>
+    simp only [step] at h
+    unfold stepTask at h
+    split at h
+    · simp at h
+    · simp only [] at h
+      cases hpc : (s.tasks i).pc <;> simp only [hpc] at h
+      all_goals (repeat' (split at h))
+      all_goals (try (simp at h; done))
+      all_goals (try (injection h with h; subst h))
+      all_goals first
+        | exact hact'
+        | (simp only [setPc_active, finish_active, closeConn_active] at hact'; exact hact')
+        | (exfalso; simp only [setPc_active] at hact'; exact hq _ hact')
+  | back c0 =>
+    simp only [step] at h
+    unfold stepBack at h
+    split at h
+    · simp at h
+    · simp only [] at h
+      cases hh : (s.conns c0).h <;> simp only [hh] at h
+      all_goals (repeat' (split at h))
+      all_goals (try (simp at h; done))
+      all_goals (try (injection h with h; subst h))
+      all_goals first
+        | exact hact'
+        | (simp only [setH_active, closeConn_active, closeOpt_active, spawnTask_active] at hact'; exact hact')
+  | spawn m d ev => simp [step] at h; subst h; exact hact'
+  | release c0 => simp only [step] at h; split at h <;> simp at h; subst h; exact hact'
+  | kick c0 => simp only [step] at h; split at h <;> simp at h; subst h; simpa using hact'
+  | drop c0 => simp only [step] at h; split at h <;> simp at h; subst h; simpa using hact'
+  | quit => simp [step] at h; subst h; exact absurd hact' (by rw [quitPlayer_active]; simp)
+
+/-- every step of the repaired code that stays out of the kick path and keeps the player connected preserves the
+    switch-over invariants -/
+theorem core2_step {cfg : Cfg} {s s' : St} {a : Act} (hI : Inv1 s) (hC : Core2 s)
+    (hact' : s'.active = true) (hNK : NoKick s) (hNK' : NoKick s') (h : step cfg s a = some s') : Core2 s' := by
+  have hact := step_active h hact'
+  cases a with
+  | task i => exact core2_benign hC (stepTask_benign hI.jp hI.tc hI.w hC hact hact' hNK hNK' h)
+  | back c0 => exact stepBack_core2 hI hC hact' hNK' h
+  | spawn m d ev =>
+    simp [step] at h; subst h
+    exact core2_benign hC (benignStep_of_eq (benignStep_refl s) rfl rfl rfl rfl)
+  | release c0 =>
+    simp only [step] at h
+    split at h
+    · injection h with h; subst h
+      apply core2_benign hC
+      refine ⟨rfl, rfl, Nat.le_refl _, ?_, fun c h1 h2 => by simp at h2; omega⟩
+      intro c hc
+      simp only [upd_apply]
+      split
+      · rename_i hcc; subst hcc
+        have hidle : (s.conns c).h = .idle := (hI.jp c hc).2.2.2.2.2.2.2.1 (by simp_all)
+        exact ⟨fun hs => by simp [hidle, swH] at hs, rfl, rfl, Iff.rfl, id, fun hs => by simp [hidle] at hs⟩
+      · exact benignConn_refl _
+    · simp at h
+  | kick c0 =>
+    simp only [step] at h
+    split at h
+    · injection h with h; subst h
+      exfalso
+      have := hNK' s.ntasks (by simp)
+      simp [spawnTask_tasks, isKickPc] at this
+    · simp at h
+  | drop c0 =>
+    simp only [step] at h
+    split at h
+    · injection h with h; subst h
+      exfalso
+      have := hNK' s.ntasks (by simp)
+      simp [spawnTask_tasks, isKickPc] at this
+    · simp at h
+  | quit =>
+    simp [step] at h; subst h
+    exact absurd hact' (by rw [quitPlayer_active]; simp)
+
+theorem core2_init (s : St) (h0 : s.nconns = 0) (h1 : s.current = none) (h2 : s.players = []) : Core2 s := by
+  refine ⟨?_, ?_, ?_, ?_, ?_, ?_, ?_, ?_⟩
+  · intro d hd; omega
+  · intro d hd; omega
+  · intro d hd; omega
+  · intro c c' hc; omega
+  · intro sv; rw [h2]; simp; intro c hc; omega
+  · intro c hc; rw [h1] at hc; simp at hc
+  · intro c hc; omega
+  · intro d hd; omega
 
 end Gate.C16
